@@ -45,6 +45,8 @@ def dispatch (op : String) (args : List String) : String :=
               | some r => r
               | none => match marshDispatch op args with
                 | some r => r
-                | none => "(err bad-op)"
+                | none => match effectDispatch op args with
+                  | some r => r
+                  | none => "(err bad-op)"
 
 end XV.Driver
